@@ -450,6 +450,9 @@ class VectorContainer:
             index: Union[Hashable, slice]
             name, index = key
 
+            if name not in self.__dict__['index']:
+                raise KeyError(f"'{name}' not recognised as a variable name")
+
             # Modify the relevant subset
             if isinstance(index, slice):
                 start_location, stop_location, step = self._resolve_period_slice(index)
